@@ -179,7 +179,11 @@ def check_file_chunks(rec, ex, tf_lazy, raw_ts):
         parts = {p: [] for p in chans}
         running = {p: 0 for p in chans}
         bad = []
+        want_names = [(g.name, [c.name for c in g.channels()]) for g in tf_lazy.groups()]
         for chunk in tf_lazy.data_chunks():
+            names = [(g.name, [c.name for c in g.channels()]) for g in chunk.groups()]
+            if names != want_names:
+                bad.append('file chunk lists groups / channels %r, the file lists %r' % (names, want_names))
             for p in chans:
                 g, c = split_path(p)
                 cc = chunk[g][c]
